@@ -12,10 +12,10 @@
      t_values, t_strings, t_string_map, t_value_map, str_of, is_valid, compiles
                         the meaning of the generated Go code, evaluated against the constants
                         of a source (const_env p = the source it was generated from)
-     enum_guard p T     decidable guard: the package compiles, no const spec with a qualified
-                        type (K_enum_foreign_carry) and none whose type is only inferred from its
-                        expression (K_enum_implicit_type), no two constants of T with one value
-                        (K_enum_dup) or one trimmed name
+     enum_guard p T     decidable guard: the package compiles, a const spec with a qualified type
+                        (time.Duration) is not followed by a carried-down spec (K_enum_foreign_carry),
+                        no spec's type is only inferred from its expression (K_enum_implicit_type),
+                        no two constants of T with one value (K_enum_dup) or one trimmed name
    All theorems hold for every package of the grammar (any number of types, files,
    blocks, specs, names) and every x : Z.  Only `exact`s here; proofs are in
    Proofs/Enum{Collect,Tables,Bits,Proofs}.v. *)
@@ -151,7 +151,9 @@ Definition ex_pkg : pkg :=
              vs ["LevelMid"; "LevelHigh"] (TIdent "Level") [ELit 0; EAdd EIota (ELit 2)];
              vs ["limit"] TNone [ELit 99];
              vs ["other"] TNone [];
-             vs ["LevelTop"] (TIdent "Level") [ELit 127] ];
+             vs ["LevelTop"] (TIdent "Level") [ELit 127];
+             vs ["tick"] (TForeign KInt64) [ELit 5];            (* a harmless qualified-type spec ... *)
+             vs ["LevelOdd"] (TIdent "Level") [ELit 9] ];       (* ... followed by a spec with values *)
            [ vs ["BigOne"] (TIdent "Big") [ELit 1];
              vs ["Huge"] (TIdent "Big") [ELit 18446744073709551615] ] ];
          [ [ vs ["_"] (TIdent "Color") [EIota];
@@ -168,7 +170,7 @@ Proof. conj; vm_compute; reflexivity. Qed.
 
 Example C04_example_declared :
   declared "Level" ex_pkg =
-    [("LevelLow", -2); ("LevelMid", 0); ("LevelHigh", 3); ("LevelTop", 127); ("LevelNeg", -128)]
+    [("LevelLow", -2); ("LevelMid", 0); ("LevelHigh", 3); ("LevelTop", 127); ("LevelOdd", 9); ("LevelNeg", -128)]
   /\ declared "Color" ex_pkg =
     [("ColorRed", 2); ("ColorGreen", 3); ("ColorBlue", 4); ("Plain", 6); ("ColorLast", 7)]
   /\ declared "Big" ex_pkg = [("BigOne", 1); ("Huge", 18446744073709551615)].
@@ -176,8 +178,8 @@ Proof. conj; vm_compute; reflexivity. Qed.
 
 Example C04_example_generated :
   exists g, generate ex_pkg "Level" no_flags = Some g
-    /\ t_values (const_env ex_pkg) g = [-128; -2; 0; 3; 127]
-    /\ t_strings g = ["Neg"; "Low"; "Mid"; "High"; "Top"].
+    /\ t_values (const_env ex_pkg) g = [-128; -2; 0; 3; 9; 127]
+    /\ t_strings g = ["Neg"; "Low"; "Mid"; "High"; "Odd"; "Top"].
 Proof. eexists. conj; vm_compute; reflexivity. Qed.
 
 Example C04_example_generated_color :
@@ -215,7 +217,7 @@ Definition dup_pkg : pkg :=
 
 Theorem C04_refuted_K_enum_dup :
   exists p T fl g,
-    wf_pkg p = true /\ shape_ok p = true /\ no_foreign p = true /\ no_implicit p = true
+    wf_pkg p = true /\ shape_ok p = true /\ foreign_ok p = true /\ no_implicit p = true
     /\ generate p T fl = Some g
     /\ compiles (const_env p) g false = false.
 Proof. exists dup_pkg, "Color", no_flags. eexists. conj; vm_compute; reflexivity. Qed.
@@ -232,7 +234,7 @@ Definition implicit_pkg : pkg :=
 
 Theorem C04_refuted_K_enum_implicit_type :
   exists p T fl g,
-    wf_pkg p = true /\ shape_ok p = true /\ no_foreign p = true
+    wf_pkg p = true /\ shape_ok p = true /\ foreign_ok p = true
     /\ generate p T fl = Some g
     /\ In ("PermRW", 3) (declared T p)
     /\ is_valid (const_env p) g 3 = false.
@@ -254,7 +256,7 @@ Definition foreign_pkg : pkg :=
 
 Theorem C04_refuted_K_enum_foreign_carry :
   exists p T fl g,
-    wf_pkg p = true /\ shape_ok p = true /\ no_implicit p = true
+    wf_pkg p = true /\ shape_ok p = true /\ no_implicit p = true /\ foreign_ok p = false
     /\ generate p T fl = Some g
     /\ declared T p = [("LvlA", 1)]
     /\ is_valid (const_env p) g 5 = true.
